@@ -37,6 +37,7 @@ func init() {
 		Rule{ID: "R12e", Doc: "PopEDNS0 is a correct swap-remove (no nil record left, nothing after the OPT dropped)", Floor: 5, AllVariants: true, Run: r12e},
 		Rule{ID: "R20i", Doc: "a decoded value handed to its record is not released again by the decoder (shared with C20)", Floor: 8, Run: r20i},
 		Rule{ID: "R02h", Doc: "the name decoder returns the offset after the first pointer / the end of a pointer-free name", Floor: 3, AllVariants: true, Run: r02h},
+		Rule{ID: "R02i", Doc: "appends into a fixed scratch array (the name decoder's buffer) never outgrow it", Floor: 2, AllVariants: true, Run: r02i},
 		Rule{ID: "R20k", Doc: "the sections of a (recycled) message never share a backing array (decoding the authority section would overwrite the answers; shared with C20)", Floor: 8, Run: r20k},
 	)
 }
